@@ -150,6 +150,8 @@ def main():
             json.dump(v, fh, indent=1)
         print(f"VIOLATION property={prop} replay={path}")
         print(f"  clause={v.get('clause')} op={v.get('op')} where={v.get('where')} step={v.get('step')} detail={str(v.get('detail'))[:400]}")
+    with open(os.path.join(ROOT, ".work", f"{prop}_violations.json"), "w") as fh:
+        json.dump(unknown[:3000], fh)
     wall = time.time() - t0
     write_evidence(prop, a.tier, seed, res, wall, len(unknown))
     print(f"{prop} tier={a.tier} seed={seed}: behaviours={res.get('traces')} events={res.get('evaluations')} "
